@@ -78,7 +78,7 @@ def run(ctx: Ctx):
     limit = 400_000 if ctx.thorough else 70_000
     ML.init(1)
     drv = ctx.driver()
-    fam = MS.gen_family(ctx, drv, n, limit, MIX_THOROUGH if ctx.thorough else MIX_QUICK)
+    fam = MS.family(ctx, drv, n, limit, MIX_THOROUGH if ctx.thorough else MIX_QUICK)
     ctx.cov["mapspace_sizes"] = [sz for _, _, sz in fam]
     ctx.cov["timing"] = {"family_s": round(ctx.elapsed(), 1)}
     results = ML.pool_map(MS.mapper_work, [(p, METRIC_SETS) for p, _, _ in fam], workers=4)
@@ -178,13 +178,25 @@ def run(ctx: Ctx):
                 p, desc, size = fam[i]
                 # the wanted vectors are points of the (E, L, U) front; for an (E, L) point take any full point projecting onto it
                 full = drv.ask("C02", {"op": "front", "rows": scans[i]["rows"]})
-                want = []
+                uscale_i = MS.usage_scale(desc)
+
+                def is_strict(row):
+                    return all(Fraction(x) / sc_ < 1 for x, sc_ in zip(row[2:], uscale_i))
+
+                want, strict_attainable = [], []
                 for (_, _, name, rint, _) in items:
-                    want.append(rint if name == "ELU" else next(f for f in full if f[:2] == rint[:2]))
+                    if name == "ELU":
+                        want.append(rint)
+                        strict_attainable.append(is_strict(rint))
+                    else:
+                        same = sorted((f for f in full if f[:2] == rint[:2]), key=lambda f: f[2:])
+                        want.append(same[0])
+                        strict_attainable.append(any(is_strict(f) for f in same))
                 reqs = [dict(r, want=want) for r in MS.scan_requests(desc, 1)]
                 rep = sc.run(reqs)[0]
                 found = {tuple(f["v"]): f for f in rep["found"]}
-                for (_, kind, name, rint, payload), w in zip(items, want):
+                for (_, kind, name, rint, payload), w, sa in zip(items, want, strict_attainable):
+                    payload["attained_by_a_strictly_fitting_mapping"] = sa
                     f = found.get(tuple(w))
                     if f is None:
                         raise HarnessError(f"driver found no witness for front point {w}")
@@ -206,7 +218,12 @@ def run(ctx: Ctx):
                     confirmed = usage_ok and all(ML.close(a, b, 1e-4) or (abs(a) < 1e-12 and abs(b) < 1e-12) for a, b in zip(real, payload["missing"]))
                 else:
                     confirmed = False
-                if confirmed:
+                if confirmed and MS.exactly_full(ev) and not payload["attained_by_a_strictly_fitting_mapping"]:
+                    # the delimited finding of C01 (exactly_full_counterexample): only mappings that fill a memory exactly reach this point
+                    ctx.fail("front-incomplete:" + MS.KNOWN_FULL,
+                             "a Pareto point attained only by mappings that fill a memory exactly (accepted by evaluate_mapping with usage 1.0) "
+                             "is missing from the returned front", rep)
+                elif confirmed:
                     feats = "+".join(MS.mapping_features(desc, ms))
                     ctx.fail(f"front-incomplete:{name}:{feats}",
                              "a valid mapping of the mapspace (accepted by evaluate_mapping) is not weakly dominated by any returned mapping", rep)
